@@ -13,8 +13,9 @@ AX = ("x", "y", "z")
 
 
 class C01System(BuilderSystem):
-    def __init__(self, label, dp, values, tracers=True, cls=None, contexts=True, relabel=None):
+    def __init__(self, label, dp, values, tracers=True, cls=None, contexts=True, relabel=None, bounded=False):
         self.label = label
+        self.bounded = bounded
         self.cfg = {"decimal_places": dp}
         if relabel:
             # custom axis labels: the interpreter is told which emitted label drives which axis
@@ -33,6 +34,11 @@ class C01System(BuilderSystem):
     def setup(self, st):
         if not self.is_core:
             st.g.set_resolution(1.0)
+        if self.bounded:
+            # calls that are rejected become part of the history: tracked and emitted position must still agree afterwards
+            st.g.set_bounds("axes", (-3, -3, -3), (3, 3, 3))
+            st.g.set_bounds("feed-rate", 0, 1000)
+            st.g.set_bounds("tool-power", 0, 100)
 
     # ---- alphabet ----------------------------------------------------
     def ops(self, st):
@@ -40,9 +46,15 @@ class C01System(BuilderSystem):
         shapes = [{"x": b}, {"x": c}, {"y": b}, {"z": a}, {"x": a, "z": c},
                   {"x": b, "y": c, "z": b}, {"F": 100}]
         ops = []
+        if self.bounded:
+            shapes = shapes[:3] + [{"x": 99}, {"y": b, "F": 5000}, {"z": a, "S": 500, "F": 100}, {"x": -2.5, "y": -2.5}]
         for kind in ("move", "rapid", "move_absolute", "rapid_absolute"):
             for s in shapes:
                 ops.append([kind, [], s])
+        if self.bounded:
+            ops.append(["probe", ["towards"], {"z": -9}])
+            ops.append(["probe", ["towards"], {"z": c, "F": 5000}])
+            ops.append(["set_axis", [], {"x": 50}])
         ops.append(["move", [[b, None, c]], {}])
         ops.append(["rapid", [], {"X": ["np64", b], "y": 2}])          # upper-case keyword, numpy scalar, int
         ops.append(["rapid", [["P", None, c, a]], {}])
@@ -172,10 +184,12 @@ def systems(tier):
             ("core-dp5", C01System("core-dp5", 5, exact, cls=GCodeCore), 3, None),
             ("builder-dp0-integers", C01System("builder-dp0-integers", 0, (0, 120, -10), tracers=False), 3, None),
             ("builder-relabelled-axes", C01System("builder-relabelled-axes", 4, exact, tracers=True, relabel={"X": "A", "Z": "W"}), 2, None),
+            ("builder-bounded-with-rejections", C01System("builder-bounded-with-rejections", 5, exact, tracers=False, bounded=True), 3, None),
         ]
     return [
         ("builder-dp0-integers", C01System("builder-dp0-integers", 0, (0, 120, -10), tracers=True), 3, None),
         ("builder-dp12", C01System("builder-dp12", 12, (0, 0.1, -2.675), tracers=False), 3, None),
+        ("builder-bounded-with-rejections", C01System("builder-bounded-with-rejections", 5, exact, tracers=True, bounded=True), 3, None),
         ("builder-relabelled-axes", C01System("builder-relabelled-axes", 4, exact, tracers=True, relabel={"X": "A", "Z": "W"}), 3, None),
         ("builder-dp5-exact", C01System("builder-dp5-exact", 5, exact), 4, None),
         ("builder-dp1-rounding", C01System("builder-dp1-rounding", 1, rough, tracers=True), 3, None),
